@@ -107,7 +107,16 @@ def gen_case(ch):
     if unk and w != "live" and toks:
         for _ in range(ch.int(0, 2)):
             toks.insert(ch.below(len(toks) + 1), ch.pick(G.UNKNOWN))
-    return dict(table=spec, toks=toks or ["[C]"])
+    toks = toks or ["[C]"]
+    if ch.bool(4):
+        # an unclosed bracket: the last symbol of the string (or of a fragment) loses its ']' or is a lone '['
+        cut = ch.pick(["[", "[C", "[Branch1", "[=Ring1", "[nop", "[epsilon"])
+        if "." in toks and ch.bool(40):
+            i = toks.index(".")
+            toks = toks[:i] + [cut] + toks[i:]
+        else:
+            toks = toks + [cut]
+    return dict(table=spec, toks=toks)
 
 
 def shard(ctx):
